@@ -6,7 +6,7 @@
     a function; for Rand it is a function of the draw stream. *)
 From Coq Require Import NArith List Bool.
 From ADF Require Import Spec.Spec Spec.Theory Bdd.Store Bdd.WF Bdd.Node Bdd.Ops Adf.Native Adf.NativeBase
-     Adf.GroundedProofs Adf.CompleteProofs Adf.StableProofs Adf.BridgeProofs Gen.GenFlags Gen.TieFlagRepair Bdd.Rebuild Bdd.Repair Adf.PersistProofs.
+     Adf.GroundedProofs Adf.CompleteProofs Adf.StableProofs Adf.BridgeProofs Gen.GenFlags Gen.TieFlagRepair Gen.GenAc Gen.TieAc Bdd.Rebuild Bdd.Repair Adf.PersistProofs.
 Import ListNotations.
 Local Open Scope N_scope.
 
@@ -61,3 +61,26 @@ Proof.
   split; [exact W'|]. split; [exact (same_tab_ac_ok st _ ac S A)|exact (same_tab_abs st _ ac S)].
 Qed.
 Print Assumptions C11_redundant_repair_keeps_the_adf.
+
+(** a call that panics (and is caught by the caller) is part of a history too.  The list of acceptance
+    conditions is no part of the state a call can change: no method of lib/src/adf.rs writes self.ac
+    (table REGENERATED from the source, Gen/GenAc.v), which is why the model passes it as an argument.
+    The diagram store may be left with incomplete variable-set / count tables (they are written last);
+    the node table, the unique table and the two operation memo tables are in order at every point where a
+    panic can be raised.  The repair step then restores the full invariant with the same roots denoting the
+    same ADF, so every later answer is that of a fresh object by the theorems above. *)
+Theorem C11_source_semantics_never_write_the_conditions : g_ac_writers = [].
+Proof. exact semantics_never_write_the_conditions. Qed.
+Print Assumptions C11_source_semantics_never_write_the_conditions.
+Theorem C11_repair_after_an_interrupted_call : forall c st ac, WFN st -> RescOK st -> ItecOK st -> ac_ok st ac ->
+  WF c (fix_import_x true c st) /\ ac_ok (fix_import_x true c st) ac /\
+  adf_eq (abs (fix_import_x true c st) ac) (abs st ac).
+Proof.
+  intros c st ac W R I A. destruct (fix_import_repairs_interrupted c st W R I) as [W' S].
+  split; [exact W'|]. split; [exact (same_tab_ac_ok st _ ac S A)|exact (same_tab_abs st _ ac S)].
+Qed.
+Print Assumptions C11_repair_after_an_interrupted_call.
+Theorem C11_interrupted_states_exist : forall c st, WF c st -> varlist c = true ->
+  let s := import_raw (table_of st) in WFN s /\ RescOK s /\ ItecOK s /\ ~ WF c s.
+Proof. exact interrupted_premises_satisfiable. Qed.
+Print Assumptions C11_interrupted_states_exist.
